@@ -55,23 +55,32 @@ def run(tier, replay=None):
         info = json.load(open(os.path.join(replay, "info.json")))
         v = Verdict(PROP, info.get("tier", tier), "model_checking")
         os.environ["VERIF_SEED"] = str(info.get("seed", vflib.seed()))
-        summ = common.harness_traces("c02", info.get("tier", tier), shards=1, env=env,
-                                     extra_args=["-x", "layouts=%s;only=%s" % (layouts, info["record"]["k"])])
+        tz = info["record"].get("tz")
+        summ = common.harness_traces("c02", info.get("tier", tier), shards=1, env={"TZ": tz} if tz else env,
+                                     extra_args=["-x", "layouts=%s;only=%s%s" % (layouts, info["record"]["k"], ";zonepass=1" if tz else "")])
         common.validate(v, "Trace_Api", "Trace_Api.cfg", summ, key)
         return v.finish(write_evidence=False)
     v = Verdict(PROP, tier, "model_checking")
     v.replay_info = {"seed": vflib.seed(), "tier": tier}
     v.assumptions = [
         "spec/Messages.tla reply layouts are the protocol; spec/Api.tla ResultOK is the interpretation (sentinels, domains, don't-cares listed in DESIGN 4/C02)",
-        "replies are delivered through the scripted transport after a correct 4+4 byte header; TZ=UTC",
+        "replies are delivered through the scripted transport after a correct 4+4 byte header; TZ=UTC, plus a zone pass in two (thorough: six) zones with offset changes restricted to civil times that exist there (what a civil time inside a gap decodes to is C13's subject)",
         "don't-cares: system-date years 69..99, year 0000 dates, GetCardByID asked for and echoed 0xffffffff, PINs above 999999, GetDevice's derived port",
     ]
     common.model_checks(v, [("MC_Wire", "MC_Wire.cfg", {"workers": 1}, "pass")])
     summ = common.harness_traces("c02", tier, shards=16, env=env, extra_args=["-x", "layouts=" + layouts], timeout=7200)
     common.validate(v, "Trace_Api", "Trace_Api.cfg", summ, key, prop=PROP)
+    # zone pass: the operations that carry dates / times, answered with replies whose calendar fields sit on the offset-change
+    # days of a zone with DST (civil times that exist there), in a child process running in that zone
+    zs = ["America/New_York", "Europe/London", "America/Santiago", "Australia/Lord_Howe", "Asia/Tehran", "Africa/Casablanca"]
+    pick = zs if tier == "thorough" else [zs[vflib.seed() % len(zs)], zs[(vflib.seed() + 3) % len(zs)]]
+    for z in pick:
+        zsumm = common.harness_traces("c02", tier, shards=4, env={"TZ": z}, extra_args=["-x", "layouts=%s;zonepass=1" % layouts], timeout=3600, name="c02-zone-" + z.replace("/", "_"))
+        common.validate(v, "Trace_Api", "Trace_Api.cfg", zsumm, key, prop=PROP)
+    v.coverage["zone_pass"] = pick
     v.coverage["rule"] = ("per reply-bearing operation (30, GetDevices is C11's): well-formed replies with random field values, argument-echoing replies, sentinel patterns, "
                           "each field outside its domain / zero / random with the others valid, every byte of every field over all 256 values, random payloads; "
                           "date patterns (months 0..13 x days 0..32 x 6 years) in every date slot; HH:mm byte pairs (quick: the plausible quarter + samples, thorough: all 2^16). "
-                          "distinct = distinct (arguments, reply bytes)")
+                          "zone pass: GetStatus / GetTime / SetTime / GetEvent / GetCard* / GetTimeProfile / GetDevice with calendar fields on a DST zone's offset-change days, child process in that zone. distinct = distinct (arguments, reply bytes)")
     v.coverage["checker_cmd"] = "tlc Trace_Api (VF_TRACE=<shard>)"
     return v.finish()
